@@ -451,7 +451,10 @@ def convert(engine, spec, V):
     if kind == 'date':
         return cls(V.year, V.month, V.day)
     if kind == 'time':
-        return cls(V.hour, V.minute, V.second, V.microsecond, tzinfo=tz)
+        # v1 keeps an offset parsed by %z (`.timetz()`, repair a177ce9) unless a zone is declared; the default engine
+        # converts with `.time()`, which is naive by definition
+        keep = V.tzinfo if engine == 'v1' else None
+        return cls(V.hour, V.minute, V.second, V.microsecond, tzinfo=tz if tz is not None else keep)
     if tz is not None:
         V = V.replace(tzinfo=tz)
     return cls(V.year, V.month, V.day, V.hour, V.minute, V.second, V.microsecond, tzinfo=V.tzinfo)
